@@ -4,6 +4,12 @@ _BASE_NOTE = ("Trusted: CrossHair's symbolic models of str/int/list and z3 (for 
               "bounds per condition as written to evidence (pre: lines). Nothing is claimed outside the bounds.")
 
 CLAIMS = {
+    "C18": {
+        "technique": "bounded symbolic execution (CrossHair/z3) of one traversal step of the real ASTVisitor per node kind, against a grammar child table; chained visitors; dispatch totality",
+        "text": "Structural induction step: for each of the 42 node kinds and up to 6 parsed instances (0/1/2 elements per list, optionals on/off), with any single direct child kept, deleted, replaced or skipped, "
+                "the depth-1 event sequence, the returned node and the post-state of every slot equal the oracle's. Chained visitors: 1..3 visitors, any one deleting/skipping. Dispatch: all 42 kinds.",
+        "note": _BASE_NOTE + " 'every finite tree' follows by induction on height from the per-kind step - an argument, not a query. Slots listed as known findings are excluded via vf/known.py.",
+    },
     "C20": {
         "technique": "bounded symbolic execution (CrossHair/z3) of diff_schema and its safe-type-change predicates on solver-chosen wrapper lists and elementary edits, against a variance oracle and a client corpus",
         "text": "Predicates: all 19x19 wrapper pairs x same/other named type x input/output: real 'safe' implies the variance oracle. Edits: every single and every compatible pair of 36 elementary edits, "
